@@ -87,10 +87,24 @@ package cose
 //@   props C10(sweep)
 //@   sweep bounds,panic,make,nilmem,div
 
+// The serialized header that is signed / MACed covers every label of the map: each
+// iteration stores the encoding of that label's own value under that label (no label
+// is skipped on the way back to the loop head), or the whole construction fails.
 //@ func cose.newRawHeaderMap
 //@   params unmarshaled
-//@   props C10(sweep)
+//@   local data = extract0:call:cbor.Marshal#1
+//@   local err = extract1:call:cbor.Marshal#1
+//@   local label = extract1:Next#1
+//@   local marshaled = MakeMap#1
+//@   local v = extract2:Next#1
+//@   props C10(sweep) C13 C04(functional) C05(functional)
 //@   sweep bounds,panic,make,nilmem,div
+//@   callsites Marshal 1
+//@   callsites mapupdate 1
+//@   everyiter loop#1: mapupdate
+//@   callassert Marshal#1: @value u(arg0) == u(v)
+//@   callassert mapupdate#1: @store u(arg0) == u(marshaled) && u(arg1) == u(label) && u(arg2) == u(data) && err == nil
+//@   ensures @failed result1 != nil ==> result0 == nil
 
 //@ func cose.rsaSigAlg
 //@   params opts
